@@ -618,16 +618,19 @@ pub fn recommit_lines<S: ShortGroupSignatureScheme>(em: &mut Emitter, suite: &st
         match st {
             Statements::Commitment(x) => {
                 let pr = &v["proofs"][&x.id]["Commitment"];
-                if let (Some((n, rvl, proof)), Some(got), Some(cc), Some(sb)) = (sig_part(&x.reference_id), after(&x.id, b"blind commitment"), pr["commitment"].as_str(), pr["blinder_proof"].as_str()) {
+                // the items hashed for this statement: the commitment itself (the statement of the Σ-protocol) and the recomputed value
+                let lab = |l: &[u8]| after(&x.id, l).unwrap_or_else(|| "not-hashed".to_string());
+                if let (Some((n, rvl, proof)), Some(_), Some(cc), Some(sb)) = (sig_part(&x.reference_id), after(&x.id, b"blind commitment"), pr["commitment"].as_str(), pr["blinder_proof"].as_str()) {
                     em.op(
                         format!("cm.recommit {} {} {} {} {} {} {} {} {} {}", n, off, rvl, proof, x.claim, sc_hex(&q.challenge), sb, g1_hex_c(&x.message_generator), g1_hex_c(&x.blinder_generator), cc),
-                        got,
+                        format!("commitment={} blind_commitment={}", lab(b"commitment"), lab(b"blind commitment")),
                     );
                 }
             }
             Statements::VerifiableEncryption(x) => {
                 let pr = &v["proofs"][&x.id]["VerifiableEncryption"];
-                if let (Some((n, rvl, proof)), Some(r1), Some(r2), Some(c1), Some(c2), Some(sb)) =
+                let lab = |l: &[u8]| after(&x.id, l).unwrap_or_else(|| "not-hashed".to_string());
+                if let (Some((n, rvl, proof)), Some(_), Some(_), Some(c1), Some(c2), Some(sb)) =
                     (sig_part(&x.reference_id), after(&x.id, b"r1"), after(&x.id, b"r2"), pr["c1"].as_str(), pr["c2"].as_str(), pr["blinder_proof"].as_str())
                 {
                     em.op(
@@ -635,7 +638,7 @@ pub fn recommit_lines<S: ShortGroupSignatureScheme>(em: &mut Emitter, suite: &st
                             "eg.recommit {} {} {} {} {} {} {} {} {} {} {} {}",
                             n, off, rvl, proof, x.claim, sc_hex(&q.challenge), sb, g1_hex_c(&G1Projective::GENERATOR), g1_hex_c(&x.message_generator), g1_hex_c(&x.encryption_key.0), c1, c2
                         ),
-                        format!("{} {}", r1, r2),
+                        format!("c1={} c2={} r1={} r2={}", lab(b"c1"), lab(b"c2"), lab(b"r1"), lab(b"r2")),
                     );
                 }
             }
